@@ -213,6 +213,8 @@ class TileManager(object):
             for created_tile in created_tiles:
                 if created_tile.coord in tiles:
                     tiles[created_tile.coord].source = created_tile.source
+                    # keep cacheable flag, timestamp and size of the created tile
+                    tiles[created_tile.coord].cacheable = created_tile.cacheable
 
         return tiles
 
